@@ -50,6 +50,7 @@ type Contract struct {
 	Props      []string
 	Requires   []*Clause
 	Ensures    []*Clause
+	Except     []*Clause // locations exempt from Preserves (written by the frame-less callee after all)
 	Preserves  []*Clause // locations a frame-less (assigns everything) callee is assumed to leave unchanged
 	Yields     []*Clause // rely conditions re-assumed after every yield point (select, channel operation)
 	Records    []*Clause // definitional ghost call records: assumed at call sites, not checked in the body
@@ -64,6 +65,9 @@ type Contract struct {
 	CheckOwnership bool
 	OwnershipOnly  bool
 	MayPanic   bool
+	// AllocOnly: function-valued parameters assumed to be constructors: a call through them allocates and
+	// returns a fresh non-nil object and writes nothing else (name -> justification)
+	AllocOnly  map[string]string
 	TrustPre   map[string]string // "callee requires label" -> justification: precondition assumed at call sites in this function
 	Loops      map[int]*LoopContract
 	Unfolds    []*Clause
@@ -427,6 +431,17 @@ func (cs *ContractSet) ParseContractFile(path, pkgPath string) error {
 					cur.Preserves = append(cur.Preserves, c)
 				}
 			}
+		case "except":
+			// except <locs>: locations exempt from the preserves clauses of a frame-less contract
+			if cur == nil {
+				errf(l, "except outside of func")
+				continue
+			}
+			for _, p := range splitTop(strings.TrimSpace(rest), ',') {
+				if c := mkClause(l, p); c != nil {
+					cur.Except = append(cur.Except, c)
+				}
+			}
 		case "unfold":
 			c := mkClause(l, rest)
 			if c == nil {
@@ -471,6 +486,20 @@ func (cs *ContractSet) ParseContractFile(path, pkgPath string) error {
 					cur.TrustPre = map[string]string{}
 				}
 				cur.TrustPre[ws[0]+" "+ws[1]] = strings.TrimSpace(fs[1])
+			}
+		case "allocator":
+			// allocator <param> : <justification>
+			if cur != nil {
+				fs := strings.SplitN(rest, ":", 2)
+				ws := strings.Fields(fs[0])
+				if len(ws) != 1 || len(fs) != 2 {
+					errf(l, "allocator <param> : <justification>")
+					continue
+				}
+				if cur.AllocOnly == nil {
+					cur.AllocOnly = map[string]string{}
+				}
+				cur.AllocOnly[ws[0]] = strings.TrimSpace(fs[1])
 			}
 		case "may_panic":
 			if cur != nil {
